@@ -32,8 +32,11 @@ func (c *DnsController) backgroundRefresh(cacheKey string, dnsMessage *dnsmessag
 	// Ensure refreshing flag is cleared even if refresh fails
 	// This prevents permanent deadlock if background refresh fails
 	defer func() {
-		if cache := c.LookupDnsRespCache(cacheKey, false); cache != nil {
-			if cache.IsRefreshing() {
+		// Load the entry directly: LookupDnsRespCache evicts an expired entry,
+		// which would throw the stale answer away as soon as one refresh attempt
+		// failed although its stale window is still open.
+		if val, ok := c.dnsCache.Load(cacheKey); ok {
+			if cache, _ := val.(*DnsCache); cache != nil && cache.IsRefreshing() {
 				cache.MarkRefreshed()
 			}
 		}
